@@ -165,7 +165,8 @@ bool OSAttribute::peekValue(ByteString& value) const
 
 		case BYTESTR:
 			value.resize(byteStrValue.size());
-			memcpy(&value[0], byteStrValue.const_byte_str(), value.size());
+			if (value.size() > 0)
+				memcpy(&value[0], byteStrValue.const_byte_str(), value.size());
 			return true;
 
 		case MECHSET:
